@@ -427,19 +427,7 @@ def _class_in_function_inner_reads_member(tree):
     return visit(tree, frozenset())
 
 
-def _walrus_in_lambda_below_scope(tree):
-    """KF-D74: an assignment expression inside a lambda written in a function or class body"""
-    def visit(n, inside):
-        if isinstance(n, ast.Lambda) and inside and any(isinstance(m, ast.NamedExpr) for m in ast.walk(n.body)):
-            return True
-        if isinstance(n, (ast.FunctionDef, ast.AsyncFunctionDef, ast.ClassDef)):
-            inside = True
-        return any(visit(ch, inside) for ch in ast.iter_child_nodes(n))
-    return visit(tree, False)
-
-
 SHAPES = {
-    "walrus_in_lambda_below_scope": _walrus_in_lambda_below_scope,
     "walrus_in_while_test": _walrus_in_while_test,
     "walrus_in_for_iter": _walrus_in_for_iter,
     "fstring_spec_control_char": _fstring_spec_control_char,
